@@ -508,60 +508,62 @@ def _predict(ctx, f):
     cfg = CFG(f.node)
     p_idx, p_psms, p_models = f.params[:3]
     # ---- the prediction task
-    task = [n for n in ast.walk(f.node) if isinstance(n, ast.Call)
-            and isinstance(n.func, ast.Call)
-            and ast.unparse(n.func) == "delayed(predict_fold)"]
-    ctx.require(len(task) == 1, f"{f.qual}: predict_fold task not found")
-    kw = _call_args(prog, T, "mokapot.brew.predict_fold", task[0])
+    from ..proto import Calls
+    from ..tutil import POS, align_positions, fuse_comps
+    tasks = Calls(prog, f, du=du, T=T, cfg=cfg).calls(
+        "mokapot.brew.predict_fold")
+    ctx.require(len(tasks) == 1, f"{f.qual}: predict_fold task not found")
+    task = [tasks[0][1]]
+    kw = bound_args(prog, tasks[0][0]) or {}
     pf = prog.func("mokapot.brew.predict_fold")
     p_model, p_fold, p_pp, p_scores = pf.params
     t_fold, t_model, t_ps, t_fs = (kw.get(p_fold), kw.get(p_model),
                                    kw.get(p_pp), kw.get(p_scores))
     ctx.require(None not in (t_fold, t_model, t_ps, t_fs),
                 f"{f.qual}: predict_fold task misses an argument")
-    # fold = idx(D), psms = elem(D), model = models[idx(D)]
-    ok_t = (t_fold[0] == "idx" and t_ps[0] == "elem"
-            and t_fold[1] == t_ps[1]
-            and t_model == ("sub", ("param", p_models), t_fold))
+    # fold = position k, psms = D[k], model = models[k]   (any spelling of
+    # "the same position": enumerate, zip, range(len(..)) with subscripts)
+    a_fold, a_ps, a_model = (align_positions(t_fold), align_positions(t_ps),
+                             align_positions(t_model))
+    ok_t = (a_fold == POS and a_ps[0] == "sub" and a_ps[2] == POS
+            and a_model == ("sub", ("param", p_models), POS))
     gen = cfg.enclosing(task[0], (ast.GeneratorExp, ast.ListComp))
     ok_t = ok_t and gen is not None and len(gen.generators) == 1 and \
         not gen.generators[0].ifs
-    D = t_ps[1] if t_ps[0] == "elem" else None
-    dc = _plain_comp(D) if D else None
-    ok_list = False
+    D = a_ps[1] if ok_t else None
+    # D = [_create_psms(ds, get_index_values(chunk, 'fold', i, ORIG), ..)
+    #      for i in range(n)]   (one or two comprehensions, fused here)
+    dc = _plain_comp(fuse_comps(D)) if D else None
+    ok_list = ok_s = False
     L = chunk_t = orig_t = None
     ds_t = None
+    n_t = None
     if dc and dc[0][0] == "call" and dc[0][1] == "mokapot.brew._create_psms":
         cp = prog.func("mokapot.brew._create_psms")
-        ba = dict(zip(cp.params, dc[0][2]))
-        ba.update(dict(dc[0][3]))
+        ba = bound_args(prog, dc[0]) or {}
         L = dc[1]
         ds_t = ba.get(cp.params[0])
-        ok_list = ba.get(cp.params[1]) == ("elem", L)
+        g = ba.get(cp.params[1])
+        if g is not None and g[0] == "call" and \
+                g[1] == "mokapot.brew.get_index_values":
+            ok_list = True
+            giv = prog.func("mokapot.brew.get_index_values")
+            ga = bound_args(prog, g) or {}
+            chunk_t = ga.get(giv.params[0])
+            orig_t = ga.get(giv.params[3])
+            rng = L
+            if rng[0] == "call" and rng[1] == "builtins.range" and \
+                    len(rng[2]) == 1:
+                n_t = rng[2][0]
+                ok_s = (ga.get(giv.params[1]) == ("const", "fold")
+                        and ga.get(giv.params[2]) == ("elem", rng)
+                        and n_t == ("call", "builtins.len",
+                                    (("param", p_models),), ()))
     ctx.check(ok_t and ok_list, "C02b-model-i-scores-slot-i", f,
               "slice i is scored by models[i] and stored under fold i",
               f"predict_fold(model={show(t_model, 60)}, fold="
               f"{show(t_fold, 40)}, psms={show(t_ps, 60)}) over "
               f"{show(D, 80) if D else '?'}", node=task[0])
-    # ---- slices: get_index_values(chunk, 'fold', i, ORIG) for i in range(n)
-    lc = _plain_comp(L) if L else None
-    ok_s = False
-    n_t = None
-    if lc and lc[0][0] == "call" and \
-            lc[0][1] == "mokapot.brew.get_index_values":
-        giv = prog.func("mokapot.brew.get_index_values")
-        ga = dict(zip(giv.params, lc[0][2]))
-        ga.update(dict(lc[0][3]))
-        chunk_t = ga.get(giv.params[0])
-        orig_t = ga.get(giv.params[3])
-        rng = lc[1]
-        if rng[0] == "call" and rng[1] == "builtins.range" and \
-                len(rng[2]) == 1:
-            n_t = rng[2][0]
-            ok_s = (ga.get(giv.params[1]) == ("const", "fold")
-                    and ga.get(giv.params[2]) == ("elem", rng)
-                    and n_t == ("call", "builtins.len",
-                                (("param", p_models),), ()))
     ctx.check(ok_s, "C02b-slot-i-holds-fold-i", f,
               "slot i of the per-chunk slices holds exactly the rows whose "
               "fold label is i, for i in range(number of models)",
